@@ -106,7 +106,8 @@ theorem obj_roundtrip (ρ : String → FieldDecl) (props : List (String × Schem
   | none => simp [objIssues] at hi
   | some req =>
     simp only [objIssues] at hi
-    obtain ⟨hab, h3⟩ := append_nil_of_isEmpty hi
+    obtain ⟨habc, _⟩ := append_nil_of_isEmpty hi
+    obtain ⟨hab, h3⟩ := append_nil_of_isEmpty habc
     obtain ⟨_, h2⟩ := append_nil_of_isEmpty hab
     have hdn := ite_nil (by simp) h2
     have hcol := ite_nil' (by simp) h3
@@ -206,7 +207,8 @@ theorem class_roundtrip (ρ : String → FieldDecl) (hρ : RefsAreClasses ρ) (n
   | none => simp [objIssues] at hi
   | some req =>
     simp only [objIssues] at hi
-    obtain ⟨hab, h3⟩ := append_nil_of_isEmpty hi
+    obtain ⟨habc, _⟩ := append_nil_of_isEmpty hi
+    obtain ⟨hab, h3⟩ := append_nil_of_isEmpty habc
     obtain ⟨_, h2⟩ := append_nil_of_isEmpty hab
     have hdn := ite_nil (by simp) h2
     have hcol := ite_nil' (by simp) h3
